@@ -1336,6 +1336,27 @@ def run_cas_scenario(seed):
                     what=f"nu .append of a ByteStream in chunks {sizes} ({len(want)} bytes) stored {None if got is None else len(got)} bytes "
                          f"under {fj['hash']}; the bytes hash to {integ(want)}"))
             seen[fj["hash"]] = want
+        # content is shared by hash: a retention policy that evicts ONE frame must not take the content away from another
+        # frame (other topic, other context) that carries the same bytes
+        shared = b"shared-" + bytes(r.randrange(256) for _ in range(64))
+        c_other = cl.append("xs.context")
+        for path in ("/dedupA?ttl=head:1", "/dedupB", "/dedupA?ttl=time:1"):
+            cl.request(H.render("POST", path, body=shared))
+        if c_other:
+            cl.request(H.render("POST", "/dedupA?context=" + H.id_to_s(c_other), body=shared))
+        for k in range(2):
+            cl.request(H.render("POST", "/dedupA?ttl=head:1", body=b"newer-%d" % k))
+        time.sleep(0.05)
+        cl.request(H.render("GET", "/"))          # a read: hands expired time:N frames to the collector
+        cl.gc()
+        seen[integ(shared)] = shared
+        for f in cl.frames():
+            if f["hash"]:
+                rep["reads"] += 1
+                if cl.cas(f["hash"]) is None:
+                    rep["violations"].append(dict(what=f"frame {f['topic']} (context {'zero' if f['ctx'] == 0 else 'non-zero'}) carries hash {f['hash']} but its content "
+                                                       f"is gone after the collector evicted / expired ANOTHER frame with the same bytes"))
+                    break
         pump()
         s.close()
         # across a restart: same hash, same bytes
